@@ -15,12 +15,21 @@ def rule(frm, cnt, to, dist=1, thr=0, base=0, coef=0, alt=None, altif="-"):
             "alt": alt if alt is not None else to, "altif": altif}
 
 
+def _by(sts, infl):
+    return infl if isinstance(infl, list) else [infl] * len(sts)
+
+
 MODELS = {
     "threshold2": (["S", "I"], [rule("S", "I", "I", thr=2, base=2)], 1),
     "threshold1-recover": (["S", "I"], [rule("S", "I", "I", thr=1, base=1), rule("I", "I", "S", base=1)], 1),
     "SIR": (["S", "I", "R"], [rule("S", "I", "I", thr=1, coef=2), rule("I", "I", "R", base=1)], 1),
     "cyclic": (["A", "B", "C"], [rule("A", "B", "B", base=1, coef=1), rule("B", "C", "C", base=0, coef=2), rule("C", "A", "A", base=1)], 1),
     "distance2": (["S", "I"], [rule("S", "I", "I", dist=2, thr=1, coef=1), rule("I", "S", "S", dist=2, base=1, coef=1)], 2),
+    # the chooser may answer the current status (a failed attempt): still an event with its own waiting time
+    "null-moves": (["S", "I", "V"], [rule("S", "I", "I", thr=1, base=1, coef=1, alt="S", altif="V"), rule("I", "I", "S", base=1),
+                                     rule("V", "I", "S", thr=1, coef=1)], 1),
+    # SIRS whose influence set depends on the status the node has just taken: a node that became S influences nobody
+    "sirs-status-influence": (["S", "I", "R"], [rule("S", "I", "I", thr=1, coef=2), rule("I", "I", "R", base=1), rule("R", "I", "S", base=1)], [0, 1, 1]),
     "chooser": (["S", "I", "V"], [rule("S", "I", "I", thr=1, coef=1, base=1, alt="V", altif="V"), rule("I", "I", "S", base=1), rule("V", "I", "S", thr=1, coef=1)], 1),
 }
 
@@ -45,7 +54,7 @@ def make_scenarios(tier, seed):
     for name, (sts, rules, infl) in MODELS.items():
         gs = g3 + (rng.sample(g4, 6) if tier == "quick" else g4)
         for adj in gs:
-            scn.append({"model": name, "n": len(adj), "statuses": sts, "adj": adj, "rules": rules, "infl": infl, "small": 0})
+            scn.append({"model": name, "n": len(adj), "statuses": sts, "adj": adj, "rules": rules, "inflby": _by(sts, infl), "small": 0})
     return scn
 
 
@@ -53,7 +62,7 @@ def control_scenarios():
     """distance-2 model with an influence set of radius 1: rates go stale"""
     sts, rules, infl = MODELS["distance2"]
     path = [[0, 1, 0], [1, 0, 1], [0, 1, 0]]
-    return [{"model": "distance2-small-influence", "n": 3, "statuses": sts, "adj": path, "rules": rules, "infl": 1, "small": 1}]
+    return [{"model": "distance2-small-influence", "n": 3, "statuses": sts, "adj": path, "rules": rules, "inflby": _by(sts, 1), "small": 1}]
 
 
 def within(scn, u, d):
@@ -89,7 +98,8 @@ def callbacks(scn, log, infl_kind="set"):
 
     def get_influence_set(G, node, status, parameters):
         log.append(("influence", node))
-        w = within(scn, node, scn["infl"])
+        r = scn["inflby"][scn["statuses"].index(status[node])]      # radius for the status the node has just taken
+        w = within(scn, node, r) if r > 0 else set()
         if infl_kind == "list":
             return sorted(w)
         if infl_kind == "iterator":      # e.g. `return G.neighbors(node)`: a one-shot iterator
